@@ -417,6 +417,8 @@ def run(ctx):
         import layout as _layout
         import spec as _SP
         _layout.check_layout(ctx, _SP.load_spec(), u.name, 'USER_DATA', rule='S5')
+        import C01 as _c01s
+        _c01s.reader_string(ctx, 'S5')          # the record's text is the bytes the chunk stores, all of them (seed C10-r trimmed trailing NULs)
         strs = q.calls(u, common.READER + 'string')
         for c in strs:
             ok = flag_guard(c.bb, 1)
